@@ -62,23 +62,34 @@ pub async fn do_cname_dname(
                     continue;
                 }
                 if let Some(ce) = g.closest_encloser() {
-                    let (check, state, ede) = check_not_exists_for_wildcard(
-                        &name,
-                        authorities,
-                        &g.signer_name(),
-                        &ce,
-                        nsec3_cache,
-                        config,
-                    )
-                    .await;
-                    if check {
-                        maybe_secure = map_maybe_secure(state, maybe_secure);
-                    // Just continue.
-                    } else {
-                        // totest, CNAME from wildcard with bad non-existance
-                        // proof
-                        // Report failure
-                        return (name, ValidationState::Bogus, ede);
+                    // It is possible that the request was for the actual
+                    // wildcard. In that case the CNAME record is not the
+                    // result of a wildcard expansion and we do not need to
+                    // prove that name does not exist.
+                    let is_wildcard_itself = star_closest_encloser(&ce)
+                        .map(|star_name| star_name == name)
+                        .unwrap_or(false);
+                    if !is_wildcard_itself {
+                        let (check, state, ede) =
+                            check_not_exists_for_wildcard(
+                                &name,
+                                authorities,
+                                &g.signer_name(),
+                                &ce,
+                                nsec3_cache,
+                                config,
+                            )
+                            .await;
+                        if check {
+                            maybe_secure =
+                                map_maybe_secure(state, maybe_secure);
+                        // Just continue.
+                        } else {
+                            // totest, CNAME from wildcard with bad
+                            // non-existance proof
+                            // Report failure
+                            return (name, ValidationState::Bogus, ede);
+                        }
                     }
                 }
                 name = cname.cname().to_name();
